@@ -119,6 +119,18 @@ def str_to_time(time_str):
     return int(dt.total_seconds())
 
 
+def check_text_storable(text):
+    """
+    HDF5 stores text as NUL-terminated UTF-8: text that contains a NUL
+    character or cannot be encoded (a lone surrogate) cannot be stored. h5py
+    finds out only while writing, when a dataset may already have been resized
+    or the previous value of an attribute removed; check before.
+    """
+    if "\x00" in text:
+        raise ValueError("Text must not contain NUL characters")
+    text.encode("utf-8")
+
+
 def check_attr_type(value, type_):
     """
     Checks if a value is of a given type and raises an exception if the check
